@@ -84,8 +84,13 @@ fn spec_for_inner(id: &str) -> Option<CheckSpec> {
 }
 
 /// Small in-process determinism check, run at the start of every check: the first runs of every
-/// campaign are executed twice and must produce identical digests, hashes and verdicts.
-pub fn determinism_precheck(spec: &CheckSpec, seed: u64, thorough: bool) -> Result<(), String> {
+/// campaign are executed twice. The generated case must be identical (anything else is a defect of
+/// the harness: exit 2). If the case is identical but what the system under test did with it is
+/// not, the tree under test is itself not deterministic (say, it iterates a randomly seeded hash
+/// table): that is no reason to refuse a verdict — every run is still judged on what it actually
+/// did — so the check goes on and says so; only exact replay is then not guaranteed.
+pub fn determinism_precheck(spec: &CheckSpec, seed: u64, thorough: bool) -> Result<bool, String> {
+  let mut sut_nondet = false;
   for camp in &spec.campaigns {
     let cname = camp.name();
     for idx in 0..48u64 {
@@ -93,12 +98,14 @@ pub fn determinism_precheck(spec: &CheckSpec, seed: u64, thorough: bool) -> Resu
       let mut a1 = Acc::default(); let mut a2 = Acc::default();
       let r1 = camp.run(s, idx, &mut Ctx { thorough, want_sample: false, acc: &mut a1 });
       let r2 = camp.run(s, idx, &mut Ctx { thorough, want_sample: false, acc: &mut a2 });
-      if r1.digest != r2.digest || r1.case_hash != r2.case_hash || r1.failure.is_some() != r2.failure.is_some() || r1.state_hashes != r2.state_hashes || a1.counters != a2.counters || a1.faults != a2.faults {
-        return Err(format!("campaign {} run {} (seed {}) is not reproducible", cname, idx, s));
+      if r1.case_hash != r2.case_hash { return Err(format!("campaign {} run {} (seed {}) does not generate the same case twice", cname, idx, s)); }
+      if r1.digest != r2.digest || r1.failure.is_some() != r2.failure.is_some() || r1.state_hashes != r2.state_hashes || a1.counters != a2.counters || a1.faults != a2.faults {
+        if !sut_nondet { eprintln!("note: campaign {} run {} (seed {}): the same case executed twice gave two different histories — the tree under test is not deterministic; runs are judged on what they did, exact replay is not guaranteed", cname, idx, s); }
+        sut_nondet = true;
       }
     }
   }
-  Ok(())
+  Ok(sut_nondet)
 }
 
 /// Larger self-test: every claimed property, several seeds, each executed twice in-process with
